@@ -151,7 +151,15 @@ def s_mod(a, b):
         return a % b
     if is_int_like(a) and is_int_like(b):
         return to_z3(a, "int") % to_z3(b, "int")
-    raise Unsupported("real modulo (T-FP64 handles the boundary maps separately)")
+    if is_conc(b) and not isinstance(b, bool) and b > 0 and (is_real_like(a) or is_int_like(a)):
+        # numpy/Python floor modulo over the reals (A1): a - b*floor(a/b)
+        x = to_z3(a, "real")
+        return x - real_const_of(b) * z3.ToReal(z3.ToInt(x / real_const_of(b)))
+    raise Unsupported("real modulo with a symbolic or non-positive modulus")
+
+
+def real_const_of(b):
+    return to_z3(float(b), "real")
 
 
 def s_pow(a, b):
@@ -1256,6 +1264,16 @@ def math_sqrt(I, st, args, kw, node):
     return np_sqrt(I, st, args, kw, node)
 
 
+@ext("numpy.floor", "np.floor over the reals (A1): the greatest integer not above x, as a float")
+def np_floor(I, st, args, kw, node):
+    def f(x):
+        if is_conc(x):
+            import math
+            return float(math.floor(x))
+        return z3.ToReal(z3.ToInt(to_z3(x, "real")))
+    return lift1(I, st, f, args[0], "real")
+
+
 @ext("numpy.abs")
 def np_abs(I, st, args, kw, node):
     return lift1(I, st, lambda x: b_abs(I, st, [x], {}, node), args[0])
@@ -1305,6 +1323,16 @@ def np_where(I, st, args, kw, node):
     c, a, b = args
     C = arr_of(st, c)
     A, B = arr_of(st, a), arr_of(st, b)
+    if C is None:
+        if A is not None or B is not None:
+            raise Unsupported("np.where with scalar condition and array branches")
+        cc = I.truth(c, st)
+        if cc is True:
+            return a
+        if cc is False:
+            return b
+        w = "real" if (is_real_like(a) or is_real_like(b)) else None
+        return z3.If(cc, to_z3(a, w), to_z3(b, w))
     shape = C.shape
 
     def fn(*i):
